@@ -126,6 +126,9 @@ def main():
     for sub, gen in c05gen.all_campaigns(seed, n_random, thorough=True):
         for prog in gen:
             cases.append(prog)
+    from gens import progs_features
+
+    cases.extend(progs_features.feature_cases())  # exceptions / objects / this / callbacks (for C07, C08)
     t0 = time.time()
     by_sub = {}
     disagreements = []
